@@ -378,6 +378,22 @@ Proof.
   rewrite skipn_app, skipn_all, Nat.sub_diag. cbn [app skipn]. reflexivity.
 Qed.
 
+(* L1': a well-formed frame for a unit that is not served is skipped (advanceFrame), whatever its PDU *)
+Lemma a_loop_foreign n f rest h :
+  ascii_wf f -> validate_unit base units single (Some (f_uid f)) = Ok false ->
+  loop (S n) units single {| a_buf := spec_adu KAscii f ++ rest; a_hdr := h |} =
+  loop n units single {| a_buf := rest; a_hdr := ahdr0 |}.
+Proof.
+  intros Hwf Hval. cbn [a_loop]. rewrite a_ready_eq. cbn [a_buf].
+  pose proof (adu_ascii_length f) as HL.
+  rewrite app_length, HL. replace (Z.of_nat (2 * length (f_pdu f) + 7 + length rest) >? 1) with true by lia.
+  rewrite a_check_eq, check_frame by exact Hwf. cbn [a_hdr a_uid]. rewrite Hval.
+  rewrite a_advance_eq. cbn [a_buf a_hdr a_len]. pose proof (fH_length f) as HH.
+  rewrite pyfrom_nn by lia.
+  replace (Z.to_nat (Z.of_nat (S (length (fH f))) + 2)) with (length (spec_adu KAscii f)) by lia.
+  rewrite skipn_app, skipn_all, Nat.sub_diag. reflexivity.
+Qed.
+
 (* L2: a proper prefix of a good frame: nothing happens, the buffer is kept *)
 Lemma a_loop_partial n f p q :
   ascii_wf f -> spec_adu KAscii f = p ++ q -> q <> [] ->
@@ -409,21 +425,30 @@ Proof. reflexivity. Qed.
 
 Notation astream := (stream frame (spec_adu KAscii)).
 
+Definition a_acc (u : Z) : bool := single || zmem 0 units || zmem 255 units || zmem u units.
+Definition ascii_sf (f : frame) : Prop :=
+  ascii_wf f /\ (a_acc (f_uid f) = true -> is_msg (dec (f_pdu f)) = true).
+Definition ascii_dls (f : frame) : list delivery :=
+  if a_acc (f_uid f) then [spec_delivery KAscii f] else [].
+
 Lemma a_loop_stream : forall fs n p rest,
-  Forall good fs -> Forall good rest -> (length fs <= n)%nat ->
+  Forall ascii_sf fs -> Forall ascii_sf rest -> (length fs <= n)%nat ->
   partial frame (spec_adu KAscii) p rest ->
   loop (S n) units single {| a_buf := astream fs ++ p; a_hdr := ahdr0 |} =
-  ({| a_buf := p; a_hdr := ahdr0 |}, map (spec_delivery KAscii) fs, Done).
+  ({| a_buf := p; a_hdr := ahdr0 |}, flat_map ascii_dls fs, Done).
 Proof.
   induction fs as [|f fs IH]; intros n p rest Hg Hr Hn Hpart.
-  - cbn [stream map concat app]. destruct Hpart as [->|(f & rest' & q & -> & Hadu & Hq & Hp)].
+  - cbn [stream map concat app flat_map]. destruct Hpart as [->|(f & rest' & q & -> & Hadu & Hq & Hp)].
     + apply a_loop_empty.
     + apply Forall_inv in Hr. destruct Hr as (Hwf & _). apply (a_loop_partial n f p q Hwf Hadu Hq).
   - change (astream (f :: fs)) with (spec_adu KAscii f ++ astream fs). rewrite <- app_assoc.
     destruct n as [|n]; [cbn in Hn; lia|].
-    rewrite a_loop_frame by (now apply Forall_inv in Hg).
-    apply Forall_inv_tail in Hg.
-    rewrite (IH n p rest Hg Hr ltac:(cbn in Hn; lia) Hpart). reflexivity.
+    pose proof (Forall_inv Hg) as (Hwf & Hdec). apply Forall_inv_tail in Hg.
+    cbn [flat_map]. unfold ascii_dls at 1. destruct (a_acc (f_uid f)) eqn:Ea.
+    + rewrite a_loop_frame by (split; [exact Hwf|split; [apply Hdec; reflexivity|rewrite a_validate_spec; f_equal; exact Ea]]).
+      rewrite (IH n p rest Hg Hr ltac:(cbn in Hn; lia) Hpart). reflexivity.
+    + rewrite a_loop_foreign by (try exact Hwf; rewrite a_validate_spec; f_equal; exact Ea).
+      rewrite (IH n p rest Hg Hr ltac:(cbn in Hn; lia) Hpart). reflexivity.
 Qed.
 
 Lemma a_stream_length_ge fs : (length fs <= length (astream fs))%nat.
@@ -445,31 +470,49 @@ Proof.
   rewrite a_validate_spec. f_equal. exact Hacc.
 Qed.
 
+Lemma a_acc_spec c u : a_acc (c_units c) (single_of (a_single_default ascii) c) u = spec_accepts KAscii c u.
+Proof. reflexivity. Qed.
+
+Lemma a_stream_sf dec c f :
+  stream_frame KAscii dec c f -> ascii_sf dec (c_units c) (single_of (a_single_default ascii) c) f.
+Proof. intros (Hwf & Hd). split; [exact Hwf|]. rewrite a_acc_spec. exact Hd. Qed.
+
+Lemma a_dls_ref c fs :
+  flat_map (ascii_dls (c_units c) (single_of (a_single_default ascii) c)) fs = ref_deliveries KAscii c fs.
+Proof.
+  unfold ref_deliveries. induction fs as [|f fs IH]; [reflexivity|].
+  cbn [flat_map filter]. unfold ascii_dls at 1. rewrite a_acc_spec.
+  destruct (spec_accepts KAscii c (f_uid f)); cbn [app map]; now rewrite IH.
+Qed.
+
 Lemma ascii_batch dec c : forall s ch fs p rest,
-  a_hdr s = ahdr0 -> Forall (valid_frame KAscii dec c) fs -> Forall (valid_frame KAscii dec c) rest ->
+  a_hdr s = ahdr0 -> Forall (stream_frame KAscii dec c) fs -> Forall (stream_frame KAscii dec c) rest ->
   a_buf s ++ ch = stream frame (spec_adu KAscii) fs ++ p -> partial frame (spec_adu KAscii) p rest ->
   (p <> [] -> True) -> (a_buf s <> [] -> True) ->
-  exists s', a_recv base lrc ascii dec c s ch = (s', map (spec_delivery KAscii) fs, Done) /\ a_buf s' = p /\ a_hdr s' = ahdr0.
+  exists s', a_recv base lrc ascii dec c s ch =
+             (s', flat_map (ascii_dls (c_units c) (single_of (a_single_default ascii) c)) fs, Done)
+             /\ a_buf s' = p /\ a_hdr s' = ahdr0.
 Proof.
   intros s ch fs p rest Hh Hfs Hrest Heq Hpart _ _.
   unfold a_recv. cbn [a_buf a_hdr]. rewrite Heq, Hh.
-  assert (Hg : Forall (ascii_good dec (c_units c) (single_of (a_single_default ascii) c)) fs).
-  { eapply Forall_impl; [|exact Hfs]. intros f. apply a_valid_good. }
-  assert (Hg' : Forall (ascii_good dec (c_units c) (single_of (a_single_default ascii) c)) rest).
-  { eapply Forall_impl; [|exact Hrest]. intros f. apply a_valid_good. }
+  assert (Hg : Forall (ascii_sf dec (c_units c) (single_of (a_single_default ascii) c)) fs).
+  { eapply Forall_impl; [|exact Hfs]. intros f. apply a_stream_sf. }
+  assert (Hg' : Forall (ascii_sf dec (c_units c) (single_of (a_single_default ascii) c)) rest).
+  { eapply Forall_impl; [|exact Hrest]. intros f. apply a_stream_sf. }
   rewrite (a_loop_stream dec _ _ fs _ p rest Hg Hg'); [eexists; repeat split| |exact Hpart].
   rewrite app_length. pose proof (a_stream_length_ge fs). lia.
 Qed.
 
-(* C06, ASCII: full chunking independence *)
+(* C06, ASCII: full chunking independence, any mix of served and foreign frames *)
 Theorem ascii_chunking dec c frames chunks :
-  Forall (valid_frame KAscii dec c) frames ->
+  Forall (stream_frame KAscii dec c) frames ->
   concat chunks = concat (map (spec_adu KAscii) frames) ->
-  exists s', feed (a_recv base lrc ascii dec c) (a_init ascii) chunks = (s', map (spec_delivery KAscii) frames, true).
+  exists s', feed (a_recv base lrc ascii dec c) (a_init ascii) chunks = (s', ref_deliveries KAscii c frames, true).
 Proof.
-  intros Hv Hcat.
+  intros Hv Hcat. rewrite <- (a_dls_ref c).
   apply (feed_stream frame (spec_adu KAscii) ascii_adu_ne astate (a_recv base lrc ascii dec c) a_buf
-           (fun s => a_hdr s = ahdr0) (spec_delivery KAscii) (valid_frame KAscii dec c) (fun _ => True)
+           (fun s => a_hdr s = ahdr0) (ascii_dls (c_units c) (single_of (a_single_default ascii) c))
+           (stream_frame KAscii dec c) (fun _ => True)
            (ascii_batch dec c) frames chunks (a_init ascii) eq_refl eq_refl Hv Hcat).
   intros; exact I.
 Qed.
@@ -590,7 +633,9 @@ Proof.
       eapply (IH (a_advance ascii st1)); [|exact E].
       rewrite a_advance_eq. cbn [a_buf]. rewrite pyfrom_nn by (specialize (Hpos eq_refl); lia).
       rewrite skipn_length. specialize (Hpos eq_refl). lia.
-    + eapply (IH (a_reset ascii st1)); [|exact H]. rewrite a_reset_eq. cbn [a_buf length]. lia.
+    + eapply (IH (a_advance ascii st1)); [|exact H].
+      rewrite a_advance_eq. cbn [a_buf]. rewrite pyfrom_nn by (specialize (Hpos eq_refl); lia).
+      rewrite skipn_length. specialize (Hpos eq_refl). lia.
     + injection H as <- <- <-. discriminate.
   - rewrite a_droptest_eq in H. destruct (a_len (a_hdr st1) =? 0) eqn:E0; cbn [negb] in H.
     + injection H as <- <- <-. discriminate.
@@ -609,9 +654,9 @@ Qed.
 Definition a_sync (st : astate) : Prop := a_buf st = [] /\ a_hdr st = ahdr0.
 
 Theorem ascii_after_sync dec c st (vs : list frame) :
-  a_sync st -> Forall (valid_frame KAscii dec c) vs ->
+  a_sync st -> Forall (stream_frame KAscii dec c) vs ->
   exists st', a_recv base lrc ascii dec c st (concat (map (spec_adu KAscii) vs))
-              = (st', map (spec_delivery KAscii) vs, Done) /\ a_sync st'.
+              = (st', ref_deliveries KAscii c vs, Done) /\ a_sync st'.
 Proof.
   intros (Hb & Hh) Hv.
   destruct (ascii_batch dec c st (concat (map (spec_adu KAscii) vs)) vs [] [] Hh Hv (Forall_nil _)) as (s' & E & Hb' & Hh').
@@ -619,7 +664,7 @@ Proof.
   - now left.
   - trivial.
   - trivial.
-  - exists s'. split; [exact E|]. split; assumption.
+  - exists s'. rewrite <- (a_dls_ref c). split; [exact E|]. split; assumption.
 Qed.
 
 (* the open defect: a frame with a valid LRC whose PDU the decoder rejects is never consumed *)
